@@ -94,4 +94,15 @@ theorem decode_encode (m : Msg) (h : WF m) (rest : Bytes) :
     rw [hdiv, decRecs_encode gs hwf]
     rfl
 
+theorem wfRecBool_iff (g : GroupStatusData) : wfRecBool g = true ↔ WFRec g := by
+  rcases g with ⟨gn, ps, cm, spill, turbo, sensor, bat, temp, damper, sp⟩
+  cases sensor <;> cases sp <;> cases temp <;> simp [wfRecBool, WFRec, and_assoc]
+
+theorem wfBool_iff (m : Msg) : wfBool m = true ↔ WF m := by
+  cases m with
+  | request => simp [wfBool, WF]
+  | status gs =>
+    simp only [wfBool, WF, Bool.and_eq_true, Bool.not_eq_true', List.all_eq_true, wfRecBool_iff]
+    cases gs <;> simp
+
 end PyAirtouch.Lemmas.At4X2B
